@@ -1,0 +1,124 @@
+//! Verification hook (only with `--cfg librqbit_utp_verif`): drives the real socket
+//! `Dispatcher` by hand — one `run_once` at a time over a scripted transport — and exposes a
+//! read-only snapshot of its tables. Nothing here changes library behaviour.
+use std::{
+    future::Future,
+    net::SocketAddr,
+    pin::Pin,
+    sync::Arc,
+    task::{Context, Poll},
+};
+
+use crate::{
+    SocketOpts, UtpSocket, UtpStream,
+    socket::{ControlRequest, Dispatcher},
+    stream_dispatch::verif_driver::{ScriptTransport, VirtEnv},
+};
+
+pub type VerifSocket = UtpSocket<ScriptTransport, VirtEnv>;
+
+#[derive(Debug, Clone, PartialEq, Eq)]
+pub struct VerifDispatcherSnapshot {
+    /// keys of `streams`, sorted; the flag says whether the connection's inbox is still open
+    pub streams: Vec<(SocketAddr, u16, bool)>,
+    /// per address: (token, seq_nr) of each occupied connecting slot, in slot order
+    pub connecting: Vec<(SocketAddr, Vec<Option<(u64, u16)>>)>,
+    /// cached SYNs in queue order: (remote, connection_id, seq_nr)
+    pub syns: Vec<(SocketAddr, u16, u16)>,
+    pub next_available_acceptor: bool,
+    pub accept_channel_len: usize,
+    pub next_connection_id: u16,
+}
+
+pub struct DispatcherDriver {
+    pub socket: Arc<VerifSocket>,
+    dispatcher: Option<Dispatcher<ScriptTransport, VirtEnv>>,
+    pub transport: ScriptTransport,
+    pub env: VirtEnv,
+    read_buf: Box<[u8; 16384]>,
+}
+
+pub type BoxedStreamFuture = Pin<Box<dyn Future<Output = crate::Result<UtpStream>> + Send>>;
+
+impl DispatcherDriver {
+    /// Must be called with a tokio runtime entered (streams created by the dispatcher are
+    /// spawned; they never run unless the caller drives the runtime).
+    pub fn new(opts: SocketOpts, bind_addr: SocketAddr, random: &[u16]) -> crate::Result<Self> {
+        let env = VirtEnv::new(random);
+        let transport = ScriptTransport::new(bind_addr);
+        let (socket, dispatcher) =
+            UtpSocket::new_with_opts_and_dispatcher(transport.clone(), env.clone(), opts)?;
+        Ok(Self {
+            socket,
+            dispatcher: Some(dispatcher),
+            transport,
+            env,
+            read_buf: Box::new([0u8; 16384]),
+        })
+    }
+
+    /// One poll of `Dispatcher::run_once`. `None`: still pending (nothing was ready).
+    pub fn poll_run_once(&mut self, cx: &mut Context<'_>) -> Option<crate::Result<()>> {
+        let d = self.dispatcher.as_mut().unwrap();
+        let mut fut = Box::pin(d.run_once(&mut self.read_buf[..]));
+        match fut.as_mut().poll(cx) {
+            Poll::Ready(r) => Some(r),
+            Poll::Pending => None,
+        }
+    }
+
+    pub fn accept_future(&self) -> BoxedStreamFuture {
+        let s = self.socket.clone();
+        Box::pin(async move { s.accept().await })
+    }
+
+    pub fn connect_future(&self, remote: SocketAddr) -> BoxedStreamFuture {
+        let s = self.socket.clone();
+        Box::pin(async move { s.connect(remote).await })
+    }
+
+    /// What a connection's drop guard sends when the connection ends.
+    pub fn send_shutdown(&self, addr: SocketAddr, conn_id: u16) -> bool {
+        self.socket
+            .control_requests
+            .send(ControlRequest::Shutdown((addr, conn_id.into())))
+            .is_ok()
+    }
+
+    pub fn snapshot(&self) -> VerifDispatcherSnapshot {
+        let d = self.dispatcher.as_ref().unwrap();
+        let mut streams: Vec<(SocketAddr, u16, bool)> = d
+            .streams
+            .iter()
+            .map(|((a, c), tx)| (*a, c.0, !tx.is_closed()))
+            .collect();
+        streams.sort();
+        let mut connecting: Vec<(SocketAddr, Vec<Option<(u64, u16)>>)> = d
+            .connecting
+            .iter()
+            .map(|(a, per)| {
+                (
+                    *a,
+                    per.slots
+                        .iter()
+                        .map(|s| s.as_ref().map(|c| (c.token, c.seq_nr.0)))
+                        .collect(),
+                )
+            })
+            .collect();
+        connecting.sort();
+        VerifDispatcherSnapshot {
+            streams,
+            connecting,
+            syns: d
+                .accept_queue
+                .syns
+                .iter()
+                .map(|s| (s.remote, s.header.connection_id.0, s.header.seq_nr.0))
+                .collect(),
+            next_available_acceptor: d.accept_queue.next_available_acceptor.is_some(),
+            accept_channel_len: d.accept_queue.rx.len(),
+            next_connection_id: d.next_connection_id.0,
+        }
+    }
+}
